@@ -774,4 +774,332 @@ theorem numeric_orders_offsets (l : List (Int × Int)) :
              fun p hp q hq => h p (List.mem_cons_of_mem _ hp) q (List.mem_cons_of_mem _ hq)⟩
 
 
+/-! ### explicit links -/
+
+theorem xatoms_eq_some_iff (nodes : List Nat) (as : List Int) (atoms : List Nat) :
+    xatoms nodes as = some atoms ↔
+      (∀ a ∈ as, 1 ≤ a ∧ (a - 1).toNat ∈ nodes) ∧ atoms = as.map (fun a => (a - 1).toNat) := by
+  induction as generalizing atoms with
+  | nil => simp [xatoms, eq_comm]
+  | cons a rest ih =>
+    unfold xatoms
+    by_cases h : 1 ≤ a ∧ nodes.contains (a - 1).toNat = true
+    · rw [if_pos h]
+      have h2 : (a - 1).toNat ∈ nodes := by simpa using h.2
+      cases hr : xatoms nodes rest with
+      | none =>
+        simp only [Option.map_none, List.mem_cons, forall_eq_or_imp, List.map_cons]
+        constructor
+        · intro hc; cases hc
+        · rintro ⟨⟨_, hall⟩, _⟩
+          have := (ih (rest.map (fun a => (a - 1).toNat))).mpr ⟨hall, rfl⟩
+          rw [hr] at this; cases this
+      | some t =>
+        obtain ⟨hall, ht⟩ := (ih t).mp hr
+        simp only [Option.map_some, Option.some.injEq, List.mem_cons, forall_eq_or_imp, List.map_cons]
+        constructor
+        · intro he; exact ⟨⟨⟨h.1, h2⟩, hall⟩, by rw [← he, ht]⟩
+        · rintro ⟨_, he⟩; rw [he, ht]
+    · rw [if_neg h]
+      simp only [List.mem_cons, forall_eq_or_imp]
+      constructor
+      · intro hc; cases hc
+      · rintro ⟨⟨⟨h1, h2⟩, _⟩, _⟩
+        exact absurd ⟨h1, by simpa using h2⟩ h
+
+theorem xatoms_eq_none_iff (nodes : List Nat) (as : List Int) :
+    xatoms nodes as = none ↔ ¬ ∀ a ∈ as, 1 ≤ a ∧ (a - 1).toNat ∈ nodes := by
+  constructor
+  · intro h hall
+    have := (xatoms_eq_some_iff nodes as _).mpr ⟨hall, rfl⟩
+    rw [h] at this; cases this
+  · intro h
+    cases hr : xatoms nodes as with
+    | none => rfl
+    | some t => exact absurd ((xatoms_eq_some_iff nodes as t).mp hr).1 h
+
+theorem explicitStep_of_wellAddressed (nodes : List Nat) (s : XSt) (i : XIxn) (h : i.wellAddressed nodes) :
+    explicitStep nodes s i =
+      .ok ⟨insertKV s.ixns i.contrib.1 i.contrib.2, (consecutive i.nodes).foldl addEdge s.edges⟩ := by
+  obtain ⟨as, has, hall⟩ := h
+  unfold explicitStep XIxn.contrib XIxn.nodes
+  rw [has]
+  simp only []
+  rw [(xatoms_eq_some_iff nodes as _).mpr ⟨hall, rfl⟩]
+  rfl
+
+theorem explicitStep_of_not_wellAddressed (nodes : List Nat) (s : XSt) (i : XIxn) (h : ¬ i.wellAddressed nodes) :
+    explicitStep nodes s i = .error (if i.ints = none then .value else .io) := by
+  unfold explicitStep
+  cases has : i.ints with
+  | none => simp
+  | some as =>
+    have : xatoms nodes as = none := (xatoms_eq_none_iff nodes as).mpr (fun hall => h ⟨as, has, hall⟩)
+    simp only []
+    rw [this]; simp
+
+/-- the run succeeds iff every interaction addresses existing atoms; then the store is the fold of
+inserts of the contributions and the edges are the old ones plus all consecutive pairs -/
+theorem applyExplicit_of_wellAddressed (nodes : List Nat) (xs : List XIxn) (s : XSt)
+    (h : ∀ i ∈ xs, i.wellAddressed nodes) :
+    applyExplicit nodes s xs =
+      .ok ⟨(xs.map XIxn.contrib).foldl (fun d kv => insertKV d kv.1 kv.2) s.ixns,
+           (xs.flatMap (fun i => consecutive i.nodes)).foldl addEdge s.edges⟩ := by
+  induction xs generalizing s with
+  | nil => rfl
+  | cons i rest ih =>
+    unfold applyExplicit
+    rw [explicitStep_of_wellAddressed nodes s i (h i List.mem_cons_self)]
+    simp only []
+    rw [ih _ (fun j hj => h j (List.mem_cons_of_mem _ hj))]
+    simp [List.foldl_append]
+
+/-- the first interaction that does not address existing atoms ends the run, with `ValueError` if a
+token is not a number and `IOError` otherwise -/
+theorem applyExplicit_first_error (nodes : List Nat) (pre : List XIxn) (i : XIxn) (post : List XIxn) (s : XSt)
+    (hpre : ∀ j ∈ pre, j.wellAddressed nodes) (hi : ¬ i.wellAddressed nodes) :
+    applyExplicit nodes s (pre ++ i :: post) = .error (if i.ints = none then .value else .io) := by
+  induction pre generalizing s with
+  | nil =>
+    simp only [List.nil_append]
+    unfold applyExplicit
+    rw [explicitStep_of_not_wellAddressed nodes s i hi]
+  | cons j pre ih =>
+    simp only [List.cons_append]
+    unfold applyExplicit
+    rw [explicitStep_of_wellAddressed nodes s j (hpre j List.mem_cons_self)]
+    exact ih _ (fun k hk => hpre k (List.mem_cons_of_mem _ hk))
+
+theorem applyExplicit_ok_iff (nodes : List Nat) (xs : List XIxn) (s : XSt) :
+    (∃ s', applyExplicit nodes s xs = .ok s') ↔ ∀ i ∈ xs, i.wellAddressed nodes := by
+  constructor
+  · rintro ⟨s', hs⟩
+    induction xs generalizing s with
+    | nil => intro i hi; cases hi
+    | cons x rest ih =>
+      unfold applyExplicit at hs
+      by_cases hx : x.wellAddressed nodes
+      · rw [explicitStep_of_wellAddressed nodes s x hx] at hs
+        intro i hi
+        rcases List.mem_cons.mp hi with rfl | hi
+        · exact hx
+        · exact ih _ hs i hi
+      · rw [explicitStep_of_not_wellAddressed nodes s x hx] at hs
+        cases hs
+  · intro h; exact ⟨_, applyExplicit_of_wellAddressed nodes xs s h⟩
+
+theorem consecutive_cons_cons (x y : Nat) (t : List Nat) :
+    consecutive (x :: y :: t) = (x, y) :: consecutive (y :: t) := rfl
+
+/-- `{a,b}` is an edge of `zip(atoms[:-1], atoms[1:])` iff `a` and `b` are neighbours in the atom list -/
+theorem hasEdge_consecutive_iff (l : List Nat) (a b : Nat) :
+    hasEdge (consecutive l) a b = true ↔
+      ∃ pre post, l = pre ++ a :: b :: post ∨ l = pre ++ b :: a :: post := by
+  induction l with
+  | nil =>
+    simp only [consecutive, List.zip_nil_left, hasEdge, List.any_nil, Bool.false_eq_true, false_iff]
+    rintro ⟨pre, post, h | h⟩ <;> cases pre <;> cases h
+  | cons x t ih =>
+    cases t with
+    | nil =>
+      simp only [consecutive, List.tail_cons, List.zip_nil_right, hasEdge, List.any_nil, Bool.false_eq_true, false_iff]
+      rintro ⟨pre, post, h | h⟩ <;> cases pre with
+        | nil => cases h
+        | cons p pre => cases pre <;> cases h
+    | cons y t =>
+      rw [consecutive_cons_cons]
+      have hsplit : hasEdge ((x, y) :: consecutive (y :: t)) a b =
+          (((x == a && y == b) || (x == b && y == a)) || hasEdge (consecutive (y :: t)) a b) := by
+        simp [hasEdge]
+      rw [hsplit, Bool.or_eq_true, ih]
+      constructor
+      · rintro (h | ⟨pre, post, h | h⟩)
+        · simp only [Bool.or_eq_true, Bool.and_eq_true, beq_iff_eq] at h
+          rcases h with ⟨h1, h2⟩ | ⟨h1, h2⟩
+          · exact ⟨[], t, Or.inl (by rw [h1, h2]; rfl)⟩
+          · exact ⟨[], t, Or.inr (by rw [h1, h2]; rfl)⟩
+        · exact ⟨x :: pre, post, Or.inl (by rw [h]; rfl)⟩
+        · exact ⟨x :: pre, post, Or.inr (by rw [h]; rfl)⟩
+      · rintro ⟨pre, post, h⟩
+        cases pre with
+        | nil =>
+          left
+          simp only [List.nil_append, List.cons.injEq] at h
+          simp only [Bool.or_eq_true, Bool.and_eq_true, beq_iff_eq]
+          rcases h with ⟨h1, h2, _⟩ | ⟨h1, h2, _⟩
+          · exact Or.inl ⟨h1, h2⟩
+          · exact Or.inr ⟨h1, h2⟩
+        | cons p pre =>
+          right
+          simp only [List.cons_append, List.cons.injEq] at h
+          rcases h with ⟨_, h⟩ | ⟨_, h⟩
+          · exact ⟨pre, post, Or.inl h⟩
+          · exact ⟨pre, post, Or.inr h⟩
+
+theorem hasEdge_flatMap {α : Type} (xs : List α) (f : α → List (Nat × Nat)) (a b : Nat) :
+    hasEdge (xs.flatMap f) a b = true ↔ ∃ x ∈ xs, hasEdge (f x) a b = true := by
+  simp only [hasEdge, List.any_eq_true, List.mem_flatMap]
+  constructor
+  · rintro ⟨e, ⟨x, hx, he⟩, h⟩; exact ⟨x, hx, e, he, h⟩
+  · rintro ⟨x, hx, e, he, h⟩; exact ⟨e, ⟨x, hx, he⟩, h⟩
+
+
+/-! ### `_check_relative_order` with repeated orders -/
+
+/-- one order token is never paired with two resids -/
+def Functional (l : List (Order × Int)) : Prop := ∀ p ∈ l, ∀ q ∈ l, p.1 = q.1 → p.2 = q.2
+
+theorem lookupKV_eq_none_iff_keys {κ ν : Type} [BEq κ] [LawfulBEq κ] (d : List (κ × ν)) (k : κ) :
+    lookupKV d k = none ↔ k ∉ d.map (·.1) := by
+  unfold lookupKV
+  rw [Option.map_eq_none_iff, List.find?_eq_none]
+  simp only [List.mem_map, not_exists, not_and, beq_iff_eq]
+
+theorem lookupKV_some_mem {κ ν : Type} [BEq κ] [LawfulBEq κ] (d : List (κ × ν)) (k : κ) (v : ν)
+    (h : lookupKV d k = some v) : (k, v) ∈ d := by
+  unfold lookupKV at h
+  rw [Option.map_eq_some_iff] at h
+  obtain ⟨p, hp, rfl⟩ := h
+  have h1 := List.mem_of_find?_eq_some hp
+  have h2 := List.find?_some hp
+  have : p.1 = k := by simpa using h2
+  rw [← this]; exact h1
+
+/-- the dictionary loop: it fails iff the pairs are not functional; otherwise the dictionary holds exactly
+the given pairs (as a set), under pairwise distinct keys -/
+theorem orderMatch_spec (l acc : List (Order × Int)) (hk : (acc.map (·.1)).Nodup) (hf : Functional acc) :
+    (Functional (acc ++ l) → ∃ d, orderMatch acc l = some d ∧ (∀ x, x ∈ d ↔ x ∈ acc ++ l) ∧ (d.map (·.1)).Nodup) ∧
+    (¬ Functional (acc ++ l) → orderMatch acc l = none) := by
+  induction l generalizing acc with
+  | nil =>
+    refine ⟨fun _ => ⟨acc, rfl, by simp, hk⟩, fun h => absurd (by simpa using hf) h⟩
+  | cons p l ih =>
+    obtain ⟨o, r⟩ := p
+    unfold orderMatch
+    cases hl : lookupKV acc o with
+    | none =>
+      have hnot := (lookupKV_eq_none_iff_keys acc o).mp hl
+      have hk' : ((acc ++ [(o, r)]).map (·.1)).Nodup := by
+        rw [List.map_append, List.nodup_append]
+        refine ⟨hk, by simp, ?_⟩
+        intro a ha b hb
+        simp only [List.map_cons, List.map_nil, List.mem_singleton] at hb
+        rw [hb]; intro h; exact hnot (h ▸ ha)
+      have hf' : Functional (acc ++ [(o, r)]) := by
+        intro p hp q hq he
+        rcases List.mem_append.mp hp with hp | hp <;> rcases List.mem_append.mp hq with hq | hq
+        · exact hf p hp q hq he
+        · simp only [List.mem_singleton] at hq; subst hq
+          exact absurd (List.mem_map.mpr ⟨p, hp, he⟩) hnot
+        · simp only [List.mem_singleton] at hp; subst hp
+          exact absurd (List.mem_map.mpr ⟨q, hq, he.symm⟩) hnot
+        · simp only [List.mem_singleton] at hp hq; rw [hp, hq]
+      have := ih (acc ++ [(o, r)]) hk' hf'
+      simp only [List.append_assoc, List.singleton_append] at this
+      exact this
+    | some r' =>
+      have hmem := lookupKV_some_mem acc o r' hl
+      simp only []
+      by_cases hr : r' = r
+      · subst hr
+        simp only [beq_self_eq_true, if_true]
+        obtain ⟨ih1, ih2⟩ := ih acc hk hf
+        have hiff : Functional (acc ++ (o, r') :: l) ↔ Functional (acc ++ l) := by
+          constructor
+          · intro h p hp q hq he
+            have sup : ∀ x, x ∈ acc ++ l → x ∈ acc ++ (o, r') :: l := by
+              intro x hx
+              simp only [List.mem_append, List.mem_cons] at hx ⊢
+              rcases hx with hx | hx
+              · exact Or.inl hx
+              · exact Or.inr (Or.inr hx)
+            exact h p (sup p hp) q (sup q hq) he
+          · intro h p hp q hq he
+            have sub : ∀ x, x ∈ acc ++ (o, r') :: l → x ∈ acc ++ l := by
+              intro x hx
+              simp only [List.mem_append, List.mem_cons] at hx ⊢
+              rcases hx with hx | hx | hx
+              · exact Or.inl hx
+              · exact Or.inl (hx ▸ hmem)
+              · exact Or.inr hx
+            exact h p (sub p hp) q (sub q hq) he
+        refine ⟨fun h => ?_, fun h => ih2 (fun h' => h (hiff.mpr h'))⟩
+        obtain ⟨d, hd, hmemd, hnd⟩ := ih1 (hiff.mp h)
+        refine ⟨d, hd, ?_, hnd⟩
+        intro x
+        rw [hmemd]
+        simp only [List.mem_append, List.mem_cons]
+        constructor
+        · rintro (hx | hx); exact Or.inl hx; exact Or.inr (Or.inr hx)
+        · rintro (hx | hx | hx); exact Or.inl hx; exact Or.inl (hx ▸ hmem); exact Or.inr hx
+      · have : (r' == r) = false := by simpa using hr
+        simp only [this, Bool.false_eq_true, if_false]
+        refine ⟨fun h => ?_, fun _ => trivial⟩
+        exact absurd (h (o, r') (by simp [hmem]) (o, r) (by simp) rfl) hr
+
+theorem orderMatch_of_nodup (l acc : List (Order × Int)) (h : ((acc ++ l).map (·.1)).Nodup) :
+    orderMatch acc l = some (acc ++ l) := by
+  induction l generalizing acc with
+  | nil => simp [orderMatch]
+  | cons p l ih =>
+    obtain ⟨o, r⟩ := p
+    unfold orderMatch
+    have hnot : o ∉ acc.map (·.1) := by
+      rw [List.map_append, List.nodup_append] at h
+      intro ho
+      exact h.2.2 o ho o (by simp) rfl
+    rw [(lookupKV_eq_none_iff_keys acc o).mpr hnot]
+    have := ih (acc ++ [(o, r)]) (by simpa [List.append_assoc] using h)
+    simpa [List.append_assoc] using this
+
+/-- with pairwise distinct order tokens (the residues of a residue-level link) the dictionary loop changes
+nothing: `_check_relative_order` is the pairwise `match_order` check -/
+theorem checkRelativeOrderPy_of_nodup (l : List (Order × Int)) (h : (l.map (·.1)).Nodup) :
+    checkRelativeOrderPy l = checkRelativeOrder l := by
+  unfold checkRelativeOrderPy
+  rw [orderMatch_of_nodup l [] (by simpa using h)]
+  rfl
+
+theorem pairwise_iff_of_nodup_keys (R : Order × Int → Order × Int → Prop) (hsymm : ∀ p q, R p q → R q p)
+    (d : List (Order × Int)) (hk : (d.map (·.1)).Nodup) :
+    d.Pairwise R ↔ ∀ p ∈ d, ∀ q ∈ d, p.1 ≠ q.1 → R p q := by
+  induction d with
+  | nil => simp
+  | cons a d ih =>
+    rw [List.map_cons, List.nodup_cons] at hk
+    rw [List.pairwise_cons, ih hk.2]
+    constructor
+    · rintro ⟨h1, h2⟩ p hp q hq hne
+      rcases List.mem_cons.mp hp with hpa | hp' <;> rcases List.mem_cons.mp hq with hqa | hq'
+      · exact absurd (by rw [hpa, hqa]) hne
+      · rw [hpa]; exact h1 q hq'
+      · rw [hqa]; exact hsymm _ _ (h1 p hp')
+      · exact h2 p hp' q hq' hne
+    · intro h
+      refine ⟨fun q hq => h a List.mem_cons_self q (List.mem_cons_of_mem _ hq) ?_,
+        fun p hp q hq hne => h p (List.mem_cons_of_mem _ hp) q (List.mem_cons_of_mem _ hq) hne⟩
+      intro he
+      exact hk.1 (List.mem_map.mpr ⟨q, hq, he.symm⟩)
+
+/-- `_check_relative_order` for any list of (order, resid) pairs: no order token with two resids, and
+`match_order` holds for every two pairs with different tokens -/
+theorem checkRelativeOrderPy_iff (l : List (Order × Int)) :
+    checkRelativeOrderPy l = true ↔
+      Functional l ∧ ∀ p ∈ l, ∀ q ∈ l, p.1 ≠ q.1 → matchOrder p.1 p.2 q.1 q.2 = true := by
+  unfold checkRelativeOrderPy
+  obtain ⟨h1, h2⟩ := orderMatch_spec l [] (by simp) (by intro p hp; cases hp)
+  simp only [List.nil_append] at h1 h2
+  by_cases hF : Functional l
+  · obtain ⟨d, hd, hmem, hnd⟩ := h1 hF
+    rw [hd]
+    simp only []
+    rw [checkRelativeOrder_iff_pairwise,
+      pairwise_iff_of_nodup_keys _ (fun p q h => by rw [matchOrder_symm]; exact h) d hnd]
+    constructor
+    · intro h; exact ⟨hF, fun p hp q hq => h p ((hmem p).mpr hp) q ((hmem q).mpr hq)⟩
+    · rintro ⟨_, h⟩ p hp q hq; exact h p ((hmem p).mp hp) q ((hmem q).mp hq)
+  · rw [h2 hF]
+    simp [hF]
+
+
 end PolyplyVerif.Links
